@@ -190,20 +190,20 @@ fn src_samples(r: &mut Rng, v: u64, x: u32, y: u32, shamt: bool, n: usize) -> Ve
 const SLOT_KINDS: [&str; 11] = ["nop", "write-src", "read-ra", "write-ra", "lw", "sw-ra", "mult", "add-trap", "write-src2", "addu", "lwl"];
 
 /// a delay-slot instruction: (word, kind, registers it reads that deserve boundary values)
-fn slot_insn(r: &mut Rng, kind: &str, src1: u32, src2: u32) -> (u32, Vec<u32>) {
+fn slot_insn(r: &mut Rng, kind: &str, src1: u32, src2: u32) -> (u32, Vec<u32>, Option<u32>) {
     let t = |r: &mut Rng| r.range(1, 25) as u32;
     match kind {
-        "nop" => (0, vec![]),
-        "write-src" => (itype(9, src1, src1, 4), vec![]),            // addiu src1, src1, 4
-        "write-src2" => (itype(13, src2, src2, 1), vec![]),          // ori src2, src2, 1
-        "read-ra" => (rtype(0, 31, 0, 2, 0, 33), vec![]),            // addu $v0, $ra, $zero  (move $v0, $ra)
-        "write-ra" => (itype(9, 31, 31, 8), vec![]),                 // addiu $ra, $ra, 8
-        "lw" => (itype(35, 29, t(r), 4), vec![29]),                  // lw $t, 4($sp)
-        "sw-ra" => (itype(43, 29, 31, 0xfffc), vec![29]),            // sw $ra, -4($sp)
-        "mult" => { let (a, b) = (t(r), t(r)); (rtype(0, a, b, 0, 0, 24), vec![a, b]) }
-        "add-trap" => { let (a, b, d) = (t(r), t(r), t(r)); (rtype(0, a, b, d, 0, 32), vec![a, b]) }
-        "lwl" => (itype(34, 29, t(r), 1), vec![29]),                 // lwl $t, 1($sp)
-        _ => { let (a, b, d) = (t(r), t(r), t(r)); (rtype(0, a, b, d, 0, 33), vec![a, b]) }
+        "nop" => (0, vec![], None),
+        "write-src" => (itype(9, src1, src1, 4), vec![], Some(src1)),      // addiu src1, src1, 4
+        "write-src2" => (itype(13, src2, src2, 1), vec![], Some(src2)),    // ori src2, src2, 1
+        "read-ra" => (rtype(0, 31, 0, 2, 0, 33), vec![], Some(2)),         // addu $v0, $ra, $zero  (move $v0, $ra)
+        "write-ra" => (itype(9, 31, 31, 8), vec![], Some(31)),             // addiu $ra, $ra, 8
+        "lw" => { let d = t(r); (itype(35, 29, d, 4), vec![29], Some(d)) } // lw $t, 4($sp)
+        "sw-ra" => (itype(43, 29, 31, 0xfffc), vec![29], None),            // sw $ra, -4($sp)
+        "mult" => { let (a, b) = (t(r), t(r)); (rtype(0, a, b, 0, 0, 24), vec![a, b], None) }
+        "add-trap" => { let (a, b, d) = (t(r), t(r), t(r)); (rtype(0, a, b, d, 0, 32), vec![a, b], Some(d)) }
+        "lwl" => { let d = t(r); (itype(34, 29, d, 1), vec![29], Some(d)) } // lwl $t, 1($sp)
+        _ => { let (a, b, d) = (t(r), t(r), t(r)); (rtype(0, a, b, d, 0, 33), vec![a, b], Some(d)) }
     }
 }
 
@@ -287,6 +287,16 @@ fn mips_case(seed: u64, idx: u64) -> Enc {
             for (j, x) in s.iter_mut().enumerate() {
                 if j % 3 == 0 { x.hi = BOUNDS[(v as usize + j) % BOUNDS.len()]; x.lo = BOUNDS[(v as usize * 5 + j) % BOUNDS.len()]; }
             }
+            if op == 0 && (f == 26 || f == 27) {
+                // div / divu: a case has either only zero divisors (known finding: the IL faults) or none
+                let zero_div = c == 0 || v % 4 == 3;
+                for x in s.iter_mut() {
+                    for e in x.regs.iter_mut() {
+                        if e.0 == c { if zero_div { e.1 = 0 } else if e.1 == 0 { e.1 = 1 } }
+                    }
+                }
+                if zero_div { tags.push("kf:mips-div-by-zero-il-error".into()); }
+            }
             samples = s;
             text = format!("{} r{}, r{}", name, b, c);
         }
@@ -332,7 +342,11 @@ fn mips_case(seed: u64, idx: u64) -> Enc {
                 K::Brz(op, rtf) => (itype(op, b, rtf, imm), b, 0, format!("{} r{}, {:#x}", name, b, imm)),
                 _ => unreachable!(),
             };
-            let (sw, sreads) = slot_insn(r, sk, if s1 == 0 { 25 } else { s1 }, if s2 == 0 { 9 } else { s2 });
+            let (sw, sreads, swrites) = slot_insn(r, sk, if s1 == 0 { 25 } else { s1 }, if s2 == 0 { 9 } else { s2 });
+            // known finding: jr / jalr read their target register after the delay slot has executed
+            if matches!(k, K::Jr | K::Jalr) && s1 != 0 && swrites == Some(s1) {
+                tags.push("kf:mips-jr-jalr-target-read-after-slot".into());
+            }
             words = vec![bw, sw];
             let mut ss = src_samples(r, v, s1, s2, false, ns);
             for (j, s) in ss.iter_mut().enumerate() {
@@ -342,6 +356,8 @@ fn mips_case(seed: u64, idx: u64) -> Enc {
                 for q in &sreads {
                     if *q == 29 {
                         if !s.regs.iter().any(|(x, _)| *x == 29) { s.regs.push((29, [0x7fff_eff0u32, 0x2000, 0x1000_0ff8][j % 3])); }
+                        // the slot's lw / sw must be word-aligned (unaligned accesses are a class of their own)
+                        for e in s.regs.iter_mut() { if e.0 == 29 { e.1 &= !3; } }
                     } else if !s.regs.iter().any(|(x, _)| x == q) {
                         s.regs.push((*q, PAIRS[(j + *q as usize) % PAIRS.len()].0));
                     }
@@ -473,6 +489,59 @@ fn mips_sweep() -> Vec<String> {
     acc
 }
 
+/// Same protocol as fvh::write_cases (shards, TIE_FAIL / ORACLE_FAIL / COUNT, meta.json), but every case is
+/// its own `Definition`: one nested list literal of 25 lifted blocks takes Coq ~1 s per case to elaborate
+/// (superlinear in the size of a single term), separate definitions take ~15 ms each.
+fn write_cases_defs(args: &Args, prop: &str, header: &str, ck: &str, cases: &[Case], shards: usize, extra_meta: serde_json::Value) {
+    use std::collections::BTreeMap;
+    use std::fmt::Write as _;
+    use std::io::Write as _;
+    std::fs::create_dir_all(&args.out).unwrap();
+    for e in std::fs::read_dir(&args.out).unwrap().flatten() {
+        let n = e.file_name().to_string_lossy().to_string();
+        if n.starts_with("cases_") { let _ = std::fs::remove_file(e.path()); }
+    }
+    let per = ((cases.len() + shards - 1) / shards.max(1)).max(1);
+    let mut shard_info = vec![];
+    for (k, chunk) in cases.chunks(per).enumerate() {
+        let mut s = String::new();
+        writeln!(s, "(* generated by fvh {} seed={} -- do not edit *)", prop, args.seed).unwrap();
+        writeln!(s, "{}", header).unwrap();
+        let mut defs = vec![];
+        for (j, sub) in chunk.chunks(25).enumerate() {
+            for (i, c) in sub.iter().enumerate() {
+                writeln!(s, "Definition c{}_{} : case := {}.", j, i, c.coq).unwrap();
+            }
+            writeln!(s, "Definition r{} := Eval vm_compute in (map {} [{}]).", j, ck,
+                (0..sub.len()).map(|i| format!("c{}_{}", j, i)).collect::<Vec<_>>().join("; ")).unwrap();
+            defs.push(format!("r{}", j));
+        }
+        writeln!(s, "Definition all := Eval vm_compute in ({}).", defs.join(" ++ ")).unwrap();
+        writeln!(s, "Definition TIE_FAIL := Eval vm_compute in (failing (map fst all)).").unwrap();
+        writeln!(s, "Definition ORACLE_FAIL := Eval vm_compute in (failing (map snd all)).").unwrap();
+        writeln!(s, "Definition COUNT := Eval vm_compute in (N.of_nat (length all)).").unwrap();
+        writeln!(s, "Print TIE_FAIL. Print ORACLE_FAIL. Print COUNT.").unwrap();
+        let name = format!("cases_{}.v", k);
+        std::fs::File::create(format!("{}/{}", args.out, name)).unwrap().write_all(s.as_bytes()).unwrap();
+        shard_info.push(serde_json::json!({"file": name, "offset": k * per, "count": chunk.len()}));
+    }
+    let mut hist: BTreeMap<String, u64> = BTreeMap::new();
+    let mut keys = std::collections::BTreeSet::new();
+    for c in cases {
+        for t in &c.tags { *hist.entry(t.clone()).or_insert(0) += 1; }
+        if c.nontrivial { keys.insert(c.key.clone()); }
+    }
+    let meta = serde_json::json!({
+        "property": prop, "seed": args.seed, "cases": cases.len(), "shards": shard_info,
+        "distribution": hist, "distinct_nontrivial": keys.len(),
+        "samples": cases.iter().take(3).map(|c| c.descr.clone()).collect::<Vec<_>>(),
+        "descr": cases.iter().map(|c| c.descr.clone()).collect::<Vec<_>>(),
+        "tags": cases.iter().map(|c| c.tags.clone()).collect::<Vec<_>>(),
+        "extra": extra_meta,
+    });
+    std::fs::write(format!("{}/meta.json", args.out), serde_json::to_string(&meta).unwrap()).unwrap();
+}
+
 const HEADER: &str = "From Coq Require Import ZArith List NArith.\nFrom Falcon Require Import Base.Res IL.Const IL.Expr IL.Func Isa.C02Check.\nImport ListNotations.\nLocal Open Scope Z_scope.";
 
 fn main() {
@@ -490,5 +559,5 @@ fn main() {
             *rejected.entry(f).or_insert(0) += 1;
         }
     }
-    write_cases(&args, "C02", HEADER, "ck", &cases, 16, serde_json::json!({"mips_sweep_accepted": accepted, "not_accepted_by_lifter": rejected}));
+    write_cases_defs(&args, "C02", HEADER, "ck", &cases, 16, serde_json::json!({"mips_sweep_accepted": accepted, "not_accepted_by_lifter": rejected}));
 }
